@@ -227,6 +227,37 @@ def check_metadata_and_request(report):
     r7.check(len(rec) == 1 and "field.type" in ast.unparse(rec[0]) and "field_name_prefix=" in ast.unparse(rec[0]), go.module.path, fn.lineno, "recursive call", "message-typed fields recurse with the dotted prefix")
 
 
+def check_service_keys(report):
+    """C14.8: API.services / API.all_methods are keyed by the full proto name of the service, which includes proto sub-packages
+    (Proto.services keys come from Address.proto). A key rebuilt as `<naming.proto_package>.<Service>` only exists for services
+    declared directly in the root package: for any other service the lookup raises KeyError and generation aborts; used as a
+    full name in the metadata it names a service that does not exist."""
+    r8 = report.rule("C14.8", "sample generation never rebuilds a service selector as naming.proto_package + '.' + name", floor=3)
+    m = pm()
+    n_funcs = 0
+    for q, fi in sorted(m.functions.items()):
+        if not q.startswith(("gapic.samplegen.", "gapic.samplegen_utils.")):
+            continue
+        n_funcs += 1
+        r8.instance()
+        for n in ast.walk(fi.node):
+            if isinstance(n, ast.JoinedStr) and len(n.values) >= 3 and isinstance(n.values[0], ast.FormattedValue) \
+                    and ast.unparse(n.values[0].value).endswith("naming.proto_package") \
+                    and isinstance(n.values[1], ast.Constant) and n.values[1].value == "." and isinstance(n.values[2], ast.FormattedValue):
+                owner = "selector"
+                r8.violation(fi.module.path, n.lineno, f"{q.rsplit('.', 1)[-1]}: {ast.unparse(n)}",
+                             "the selector is rebuilt from the API's root proto package; a service declared in a proto sub-package "
+                             "(google.example.v1.sub.SubLib) is keyed `google.example.v1.sub.SubLib` in API.services / all_methods, so the "
+                             "lookup raises KeyError (autogen-snippets is on by default) or the metadata names a non-existent service")
+        r8.ok()
+    r8.need(n_funcs >= 20, "functions of gapic.samplegen*", str(n_funcs))
+    # the keys really are full proto names: Proto.build / _ProtoBuilder._load_service key services by address.proto
+    ls = m.func("gapic.schema.api._ProtoBuilder._load_service")
+    r8.instance("services keyed by the full proto name")
+    r8.check(find_match("self.proto_services[address.proto]", ls.node)[0] is not None, ls.module.path, ls.node.lineno, "_load_service: self.proto_services[address.proto] = ...",
+             "services are stored under their full proto name")
+
+
 def run(report: core.Report):
     report.explanation = ("f-string decomposition of the region tag, regex literals of the snippet index matched against the lines of every "
                           "calling-form x transport sample skeleton, Jinja-AST shape of the docstring embedding, and AST pattern rules on the "
@@ -234,6 +265,7 @@ def run(report: core.Report):
     report.assumptions.append("only auto-generated samples (the autogen profile) are covered; hand-written sample configs are outside the property")
     lib = Lib()
     check_specs(report)
+    check_service_keys(report)
     check_markers_and_async(report, lib)
     check_embedding(report, lib)
     check_metadata_and_request(report)
